@@ -291,18 +291,19 @@ def body(ctx, case):
                    + ([abs(lam0) * _amax(ini)] if ini is not None else []) + [_amax(get(scaled))])
         return get(joint), exp_j, get(scaled), exp_k, big, bigk
 
-    for idx, nm in ((0, "E"), (1, "H")):
-        j, ej, k, ek, big, bigk = combos(lambda r, idx=idx: r[idx])
-        ctx.check(np.isfinite(j).all() and np.isfinite(k).all(), f"non-finite final {nm}")
-        ctx.close(j, ej, scale=big, tol=tol, msg=f"final {nm}: joint run != sum of single runs", metric="superpose_" + nm)
-        ctx.close(k, ek, scale=max(bigk, 1e-300), tol=tol,
-                  msg=f"final {nm}: run with scaled amplitude factors != scaled sum", metric="scale_" + nm)
-
     allrec = lambda r: r[2][ALL]["fields"]  # noqa: E731
     runs = singles + ([init_run] if init_run is not None else [])
     fmax = max([_amax(allrec(r)) for r in runs] + [_amax(allrec(joint))])
     fmax_k = max([abs(l) * _amax(allrec(r)) for l, r in zip(list(lams) + [lam0], runs)] + [_amax(allrec(scaled))])
     ctx.check(fmax > 0 and np.isfinite(fmax), "fields vanish or are not finite at every step", observed=fmax)
+
+    for idx, nm in ((0, "E"), (1, "H")):
+        j, ej, k, ek, big, bigk = combos(lambda r, idx=idx: r[idx])
+        ctx.check(np.isfinite(j).all() and np.isfinite(k).all(), f"non-finite final {nm}")
+        big, bigk = max(big, rho * fmax), max(bigk, rho * fmax_k)  # the final state may be much quieter than the history
+        ctx.close(j, ej, scale=big, tol=tol, msg=f"final {nm}: joint run != sum of single runs", metric="superpose_" + nm)
+        ctx.close(k, ek, scale=max(bigk, 1e-300), tol=tol,
+                  msg=f"final {nm}: run with scaled amplitude factors != scaled sum", metric="scale_" + nm)
 
     for name, typ in dets.items():
         if typ not in LIN:
